@@ -27,13 +27,22 @@ struct G {
     name_hash: u64,
 }
 
+thread_local! {
+    /// violations the monitor had already recorded when a run failed to return (panic / step budget)
+    static PENDING: std::cell::RefCell<Vec<Viol>> = const { std::cell::RefCell::new(Vec::new()) };
+}
+
 fn exec(g: &G, case: &Case, check_peek: bool) -> Result<RunOut, Fail> {
     let sim = Sim::new(g.meta.clone(), case.clone(), check_peek);
+    let keep = sim.clone();
     let _ = vcore::take_last_panic();
     let run = g.run;
     match catch_unwind(AssertUnwindSafe(move || run(sim))) {
         Ok(o) => Ok(o),
         Err(e) => {
+            if let Ok(st) = keep.0.st.try_borrow() {
+                PENDING.with(|p| p.borrow_mut().extend(st.viols.iter().cloned()));
+            }
             if e.downcast_ref::<StepBudgetExceeded>().is_some() {
                 Err(Fail::Hang)
             } else {
@@ -251,6 +260,20 @@ fn committed_trace(meta: &Meta, events: &[Event], abandoned: &HashSet<(u32, u32)
 }
 
 fn judge(g: &G, case: &Case, prop: &str) -> Judged {
+    PENDING.with(|p| p.borrow_mut().clear());
+    let mut j = judge_inner(g, case, prop);
+    // invariants that had already failed inside a run that then did not return a tree
+    PENDING.with(|p| {
+        for v in p.borrow_mut().drain(..) {
+            if owned(prop, v.oracle) && !j.viols.iter().any(|x| x.oracle == v.oracle) {
+                j.viols.push(v);
+            }
+        }
+    });
+    j
+}
+
+fn judge_inner(g: &G, case: &Case, prop: &str) -> Judged {
     let meta = &g.meta;
     let mut j = Judged { viols: vec![], fail: None, runs: 0, trace_hashes: vec![], nontrivial: false, probes: vec![], noise_injected: (0, 0), abandoned: 0, paired: false };
     let mut push = |j: &mut Judged, o: &RunOut| {
